@@ -146,8 +146,19 @@ class C11(Property):
             ctx.require(rel_close(r3._data_array, r1._data_array, 1e-13, np.maximum(np.abs(r1._data_array), scale)), "paths-differ:compiled", f"compiled {r3} vs python {r1}")
             # in-place
             a2, b2 = a.copy(), b.copy()
+            from droplets import Emulsion
+
+            em_link = Emulsion([a2, b2], copy=False)
+            linked = em_link.get_linked_data()  # documented: entries of this array mirror the droplets' data
             ret = a2.merge(b2, inplace=True)
             ctx.require(ret is a2, "inplace-return", "merge(inplace=True) did not return self")
+            # in place means in the droplet's own record: an array linked to the droplet before the merge still mirrors it, and a
+            # value written into the array afterwards reaches the droplet
+            ctx.require(linked[0].tobytes() == a2.data.tobytes(), "inplace:link-broken", f"after merge(inplace=True) the linked data row {linked[0]} no longer mirrors the droplet {a2}")
+            if not ctx.violations:
+                linked["radius"][0] = 2.5
+                ctx.require(a2.radius == 2.5, "inplace:link-broken", "a radius written into the linked array after the in-place merge did not reach the droplet")
+                a2.radius = float(r1.radius)
             ctx.require(b2.data.tobytes() == snap_b, "operand-modified:inplace-other", "merge(inplace=True) modified `other`")
             ctx.require(rel_close(a2._data_array, r1._data_array, 1e-13, np.maximum(np.abs(r1._data_array), scale)), "paths-differ:inplace", f"inplace {a2} vs out-of-place {r1}")
         # merge trees over the whole list
